@@ -47,6 +47,8 @@ def corpus(rng, n):
                                                    "Y": W(2, Next="Z"), "N": P(End=True), "Z": T("wrap", End=True)}}),
         ("parallel", F.chain([("Par", {"Type": "Parallel", "Branches": [F.chain([("T0", T("echo"))]), F.chain([("T1", T("echo")), ("V1", W(3))])]}), ("Z", P())])),
         ("parallel-end", F.chain([("Par", {"Type": "Parallel", "Branches": [F.chain([("T0", T("echo"))]), F.chain([("T1", T("slow3"))])]})])),
+        ("parallel-succeed-state", F.chain([("Par", {"Type": "Parallel", "Branches": [F.chain([("Q0", P()), ("Q1", {"Type": "Succeed"})]), F.chain([("V0", W(3)), ("V1", T("echo"))])]}),
+                                            ("Z", T("echo"))])),
         ("map", F.chain([("M", {"Type": "Map", "ItemsPath": "$.items", "MaxConcurrency": 2, "ItemProcessor": F.chain([("I1", T("wrap")), ("I2", W(1))])}), ("Z", T("echo"))])),
         ("retry-backoff", F.chain([("A", T("flaky", Retry=[{"ErrorEquals": ["Flaky"], "IntervalSeconds": 3, "MaxAttempts": 2}])), ("B", P())])),
         ("catch", {"StartAt": "A", "States": {"A": T("boom", Catch=[{"ErrorEquals": ["States.ALL"], "Next": "R", "ResultPath": "$.e"}], Next="R"), "R": T("echo", End=True)}}),
